@@ -17,6 +17,12 @@ def gen_programs(rng, tier):
         dict(tag="dropped sub-writers", items=[("PD", P[1], pts(P[1], 2)), ("ID", "s", rng.bytes(60), rng.bytes(1)), ("B", rng.bytes(4))]),
         dict(tag="unfinalized", nofin=True, items=[("B", rng.bytes(956)), ("P", P[0], pts(P[0], 2))]),
     ]
+    # the section header of the item after the first blob ends on / straddles the page boundary (logical 1020):
+    # the writes inside one library call that reach the device only there
+    followers = [lambda: ("B", rng.bytes(10)), lambda: ("P", P[0], pts(P[0], 2)), lambda: ("I", "s", rng.bytes(7), rng.bytes(2))]
+    sweep = [(940, 0), (948, 1), (944, 2), (924, 1)] if tier == "quick" else [(L, j) for L in range(900, 1016, 4) for j in range(3)]
+    for L, j in sweep:
+        progs.append(dict(tag="boundary-%d" % L, items=[("B", rng.bytes(L)), followers[j]()]))
     for _ in range(6 if tier == "quick" else 60):
         progs.append(dict(tag="random", nofin=rng.chance(1, 8), items=[crash.rand_item(rng, allow_dropped=True) for _ in range(rng.range(1, 3))]))
     return progs
